@@ -160,6 +160,58 @@ def observe(calls, order_seed=0, inputs="real"):
     return case
 
 
+def observe_two_phases(calls_a, calls_b):
+    """Two phases inserted in non-alphabetical order ('zeta' first, then 'alpha'), each with its own temporaries: one case
+    per phase (global table + that phase's table against the values stored while that phase ran)."""
+    import contextlib
+    import io
+    from dagrt.data import infer_kinds
+    from dagrt.exec_numpy import NumpyInterpreter
+    from dagrt.function_registry import base_function_registry, register_ode_rhs
+    from dagrt.language import DAGCode
+    cba, _ = progs.replay_calls("zeta", calls_a)
+    cbb, _ = progs.replay_calls("alpha", calls_b)
+    code = DAGCode.from_phases_list([cba.as_execution_phase("alpha"), cbb.as_execution_phase("zeta")], "zeta")
+    freg = register_ode_rhs(base_function_registry, "u", identifier="<func>f")
+    out = []
+    try:
+        with contextlib.redirect_stdout(io.StringIO()):
+            tbl = infer_kinds(code, function_registry=freg)
+    except Exception as e:
+        return [{"table": [], "stores": [], "assigned": [], "err": "inference:" + type(e).__name__, "calls": calls_a,
+                 "calls_b": calls_b, "order_seed": 0, "inputs": "real"}]
+
+    def f(t, u):
+        return (u * 0.5 + t).view(UT)
+
+    it = NumpyInterpreter(code, {"<func>f": f})
+    st = ClassStore()
+    it.context = st
+    it.eval_mapper.context = st
+    it.set_up(t_start=0.5, dt_start=0.25, context={"u": np.array([1.0, -2.0]).view(UT)})
+    st.events = []
+    per_phase = {"zeta": [], "alpha": []}
+    err = ""
+    try:
+        with np.errstate(all="ignore"):
+            for ev in it.run(max_steps=2):
+                if isinstance(ev, it.StepCompleted):
+                    per_phase[ev.current_state] += st.events
+                    st.events = []
+    except Exception as e:
+        err = "run:" + type(e).__name__
+    for ph, cb, calls in (("zeta", cba, calls_a), ("alpha", cbb, calls_b)):
+        table = dict(tbl.global_table)
+        table.update(tbl.per_phase_table.get(ph, {}))
+        assigned = set()
+        for s_ in cb.statements:
+            assigned.update(w for w in s_.get_written_variables() if not w.startswith("<cond>"))
+        out.append({"table": [[k, kind_table_name(v)] for k, v in sorted(table.items())], "stores": per_phase[ph],
+                    "assigned": sorted(assigned), "err": err, "calls": calls, "calls_b": calls_b if ph == "zeta" else calls_a,
+                    "phase": ph, "order_seed": 0, "inputs": "real"})
+    return out
+
+
 def run(chk):
     rng = random.Random(chk.seed)
     alpha = alphabet()
@@ -172,6 +224,10 @@ def run(chk):
     cases = [observe(calls) for calls in programs]
     # second input point: complex data in the user-type state (only programs that touch the user type can differ)
     cases += [observe(calls, inputs="complex") for calls in programs if U in json.dumps(calls)]
+    # two-phase methods (phases inserted in non-alphabetical order, temporaries with phase-specific kinds)
+    cand = [p for p in programs if len(p) >= 2]
+    for _ in range(150 if chk.quick else 3000):
+        cases += observe_two_phases(rng.choice(cand), rng.choice(cand))
     # widening family: a variable whose kind is widened (real -> complex, scalar -> array, scalar -> user type)
     # with a copy chain hanging off it, presented to inference in many statement orders
     x0 = assign("x", P(V("<dt>"), C(2)))
@@ -210,7 +266,8 @@ def run(chk):
             continue
         seen.add((sig, t[1]))
         chk.violation(sig, what + (" (complex data in the user-type state)" if c.get("inputs") == "complex" else ""),
-                      {"calls": c["calls"], "order_seed": c.get("order_seed", 0), "inputs": c.get("inputs", "real")})
+                      {"calls": c["calls"], "order_seed": c.get("order_seed", 0), "inputs": c.get("inputs", "real"),
+                       "calls_b": c.get("calls_b"), "phase": c.get("phase")})
     chk.coverage.update({
         "evaluations": len(cases),
         "distinct_nontrivial": sum(1 for c in judged if len(c["stores"]) >= 2),
@@ -252,7 +309,12 @@ def _construct(case, var):
 
 
 def replay(chk, rep):
-    c = observe(rep["case"]["calls"], rep["case"].get("order_seed", 0), rep["case"].get("inputs", "real"))
+    rc = rep["case"]
+    if rc.get("phase"):
+        a, b = (rc["calls"], rc["calls_b"]) if rc["phase"] == "zeta" else (rc["calls_b"], rc["calls"])
+        c = [x for x in observe_two_phases(a, b) if x.get("phase", rc["phase"]) == rc["phase"]][0]
+    else:
+        c = observe(rc["calls"], rc.get("order_seed", 0), rc.get("inputs", "real"))
     print(progs.show_prog(c["calls"]))
     print("table :", c["table"])
     print("stores:", c["stores"], c["err"])
